@@ -76,14 +76,37 @@ PAIRS = [
     ("water.com", None, ["o.xyz", "o.sdf"]),
 ]
 OUTFMT = {"o.json": "json_qcschema"}
+
+
+def _custom_json():
+    mol = json.loads(common.corpus_bytes("CuSCN_molecule.json"))
+    for k, v in (("zzz_custom", 1), ("aaa_custom", [1, 2]), ("mmm_custom", {"b": 1, "a": 2}), ("kkk_custom", "x"), ("ddd_custom", 2.5)):
+        mol[k] = v
+    return json.dumps(mol, indent=1)
+
+
+def inline_inputs():
+    """Generated inputs (a foreign writer's files that are not in the corpus)."""
+    return {
+        "custom_keys.json": _custom_json(),
+        "species.extxyz": "2\nProperties=species:S:1:pos:R:3 pbc=\"F F F\"\nH 0.0 0.0 0.0\nF 0.0 0.0 0.9\n",
+        "labels.extxyz": "3\nProperties=Z:I:1:species:S:1:pos:R:3 pbc=\"F F F\"\n6 CA 0.0 0.0 0.0\n8 O 0.0 0.0 1.2\n1 H 0.9 0.0 -0.5\n",
+    }
+
+
+INLINE_PAIRS = [("custom_keys.json", "json_qcschema", ["o.json", "o.xyz"]), ("species.extxyz", None, ["o.xyz", "o.sdf"]),
+                ("labels.extxyz", None, ["o.xyz", "o.pdb", "o.sdf"])]
+_GUARD = None
 PRE = b"PRE-EXISTING TARGET\nsecond line\n"
 
 
 def setup_worker():
+    global _GUARD
     import iodata.__main__  # noqa: F401
 
     sched.MONITOR.install(common.REPO)
     warnings.simplefilter("ignore")
+    _GUARD = canon.TableGuard()
 
 
 def _argv(w):
@@ -100,14 +123,36 @@ def _argv(w):
     return a
 
 
+def raw_input(name):
+    inl = inline_inputs()
+    return inl[name].encode() if name in inl else common.corpus_bytes(name)
+
+
 def input_bytes(w):
-    data0 = common.corpus_bytes(w["input_file"])
-    return faults.apply_all(data0, w.get("input_faults", []))
+    return faults.apply_all(raw_input(w["input_file"]), w.get("input_faults", []))
+
+
+def run_prelude(w):
+    """Earlier conversions in the same interpreter (the history of the process): executed before the in-process
+    executions only - a fresh `python -m iodata` has no history, and the results must agree nevertheless."""
+    from iodata.__main__ import convert
+
+    for k, pre in enumerate(w.get("prelude") or []):
+        disk = seams.SimDisk(log_events=False)
+        disk.put(pre["input_name"], raw_input(pre["input_file"]))
+        with seams.Installed(disk), warnings.catch_warnings():
+            warnings.simplefilter("ignore")
+            try:
+                convert(pre["input_name"], pre["output_name"], many=pre.get("many", False), infmt=pre.get("infmt"))
+            except Exception:  # noqa: BLE001
+                pass
 
 
 def make_disk(w, data):
     knobs = w.get("knobs", {})
     disk = seams.SimDisk(buffer_size=knobs.get("buffer_size", 8192), chunk_size=knobs.get("chunk_size"))
+    for link, target in (w.get("symlinks") or {}).items():
+        disk.symlink(link, target)
     disk.put(w["input_name"], data)
     if w.get("target_pre"):
         disk.put(w["output_name"], PRE)
@@ -185,7 +230,8 @@ def run_subprocess(w, data):
         if w.get("target_pre"):
             files[w["output_name"]] = base64.b64encode(PRE).decode()
         plan = {"verif": common.VERIF, "files": files, "plans": {w["output_name"]: w.get("output_faults") or []},
-                "knobs": w.get("knobs", {}), "result": os.path.join(tmp, "result.json")}
+                "knobs": w.get("knobs", {}), "result": os.path.join(tmp, "result.json"), "symlinks": w.get("symlinks") or {},
+                "report": [w["output_name"], w["input_name"]]}
         with open(os.path.join(tmp, "plan.json"), "w") as fh:
             json.dump(plan, fh)
         env = {k: v for k, v in os.environ.items() if not k.startswith("VERIF_")}
@@ -193,6 +239,7 @@ def run_subprocess(w, data):
         env["PYTHONPATH"] = os.pathsep.join([os.path.join(common.VERIF, "sim", "sitehook"), common.REPO])
         env["PYTHONDONTWRITEBYTECODE"] = "1"
         env["PYTHONWARNINGS"] = "ignore"
+        env["PYTHONHASHSEED"] = str(w.get("hashseed", 0))  # a user's interpreter has an arbitrary string-hash seed
         cp = subprocess.run([sys.executable, "-m", "iodata", *_argv(w)[1:]], capture_output=True, text=True, env=env,
                             cwd=tmp, timeout=300)
         res = None
@@ -201,11 +248,12 @@ def run_subprocess(w, data):
                 res = json.load(fh)
         if res is None:
             return {"status": cp.returncode, "stderr": cp.stderr[-600:], "bytes": None, "harness": "no result file"}
-        b = res["files"].get(w["output_name"])
+        okey = res["resolved"][w["output_name"]]
+        b = res["files"].get(okey)
         return {"status": cp.returncode, "stderr": cp.stderr[-600:], "exc": None,
                 "bytes": None if b is None else base64.b64decode(b),
-                "opened_w": sum(1 for e, p in res["events"] if e == "open_w" and p == w["output_name"]),
-                "fired": [tuple(x) for x in res["fired"].get(w["output_name"], [])], "handles": 0}
+                "opened_w": sum(1 for e, p in res["events"] if e == "open_w" and p == okey),
+                "fired": [tuple(x) for x in res["fired"].get(okey, [])], "handles": 0}
     finally:
         shutil.rmtree(tmp, ignore_errors=True)
 
@@ -248,7 +296,10 @@ def compare(w, api, other, label):
 
 
 def execute(w, with_subprocess=None):
+    if _GUARD is not None and _GUARD.changed():
+        _GUARD.restore()  # every run starts from the pristine module state (determinism across workers)
     data = input_bytes(w)
+    run_prelude(w)
     api = run_api(w, data)
     out = []
     # Short writes are legal and must lose nothing: under such a plan "the file the API calls would write"
@@ -275,7 +326,7 @@ def execute(w, with_subprocess=None):
 
 
 def gen_workload(rng, tier):
-    f, infmt, outs = rng.choice(PAIRS)
+    f, infmt, outs = rng.choice(PAIRS) if rng.random() < 0.88 else rng.choice(INLINE_PAIRS)
     outn = rng.choice(outs)
     w = {"input_file": f, "input_name": f, "output_name": outn, "infmt": infmt, "outfmt": OUTFMT.get(outn),
          "allow_changes": rng.random() < 0.4, "many": False, "target_pre": rng.random() < 0.5,
@@ -284,6 +335,14 @@ def gen_workload(rng, tier):
     from iodata.api import FORMAT_MODULES
 
     mod = c07.natural_fmt(f)
+    if rng.random() < (0.6 if f in dict((p_[0], 1) for p_ in INLINE_PAIRS) else 0.25):
+        # what the interpreter did before: one or two unrelated conversions
+        w["prelude"] = []
+        same = [pr for pr in PAIRS + INLINE_PAIRS if c07.natural_fmt(pr[0]) == mod and pr[0] != f]
+        for _ in range(rng.choice([1, 1, 2])):
+            # often a file of the same format (shared parser state is the likeliest channel between conversions)
+            pf, pfmt, pouts = rng.choice(same) if same and rng.random() < 0.6 else rng.choice(PAIRS + INLINE_PAIRS)
+            w["prelude"].append({"input_file": pf, "input_name": pf, "output_name": rng.choice(pouts), "infmt": pfmt})
     if hasattr(FORMAT_MODULES[mod], "load_many") and rng.random() < 0.5:
         w["many"] = True
     if infmt is None and rng.random() < 0.25:
@@ -306,14 +365,21 @@ def gen_workload(rng, tier):
             w["output_name"] = d + "/" + w["output_name"]
         else:
             w["input_name"] = d + "/" + w["input_name"]
-    elif r < 0.28:
+    elif r < 0.26:
+        # a symbolic link to a directory elsewhere: "link/.." is the parent of the link's *target*
+        w["symlinks"] = {"lnk": "deep/er/dir"}
+        if rng.random() < 0.5:
+            w["input_name"] = "lnk/../" + w["input_name"]
+        else:
+            w["output_name"] = "lnk/../" + w["output_name"]
+    elif r < 0.32:
         # names in which one pattern is a prefix/suffix of another
         w["output_name"] = rng.choice(["POSCAR.xyz", "out.xyz.fchk", "FCIDUMP.xyz", "CHGCAR.cube", "x.molden.input.xyz"])
         w["outfmt"] = None
     if rng.random() < 0.05:
         w["input_name"] = rng.choice(["in.unknown", "in.xyz", "in.fchk"])
     r = rng.random()
-    data0 = common.corpus_bytes(f)
+    data0 = raw_input(f)
     if r < 0.35:
         w["input_faults"] = [faults.random_fault(rng, data0, "crash_prefix")]
     elif r < 0.55:
@@ -343,7 +409,10 @@ def run_task(task):
     rng = common.rng_for(task["seed"], ID, task["run"])
     stats = Stats()
     w = gen_workload(rng, task["tier"])
-    w["subprocess"] = bool(task["subprocess"])
+    # real subprocesses for the regular sample, and more often where the fresh interpreter matters most:
+    # QCSchema files (set iteration, hash seed) and runs with a history
+    w["subprocess"] = bool(task["subprocess"]) or ((w["input_file"].endswith(".json") or bool(w.get("prelude"))) and rng.random() < 0.3)
+    w["hashseed"] = rng.choice([1, 7, 4242, 99991, 31337])
     data = input_bytes(w)
     api = run_api(w, data)
     viols = execute(w)
